@@ -11,6 +11,17 @@ import importlib
 from ..report import Report
 
 PREMISES = {
+    "C01": [
+        ("C07", ["C07.a", "C07.b"], "the total paid falls short of what arrived by dust only: every token unbonded into a batch is recorded as a claim of its sender "
+                                     "(a request dropped at recording time is undelegated for nobody)"),
+    ],
+    "C16": [
+        ("C18", ["C18.a"], "the reward contract's total equals the bSei total supply: every bSei variant changes the supply by exactly the signed sum of its balance "
+                            "deltas, which is what the mirror messages carry"),
+    ],
+    "C17": [
+        ("C20", ["C20.a"], "the fee is bounded: the keeper rate stored by instantiate / UpdateConfig never exceeds 1 (above 1 the split underflows and dispatch fails)"),
+    ],
     "C02": [
         ("C06", ["C06.a", "C06.b"], "booked stake <= delegated stake after a slashing check: the pools are only ever lowered to the delegated sum, and the two new pools "
                                      "add up to exactly that sum (the stSei pool is the complement of the re-scaled bSei pool, no remainder lost)"),
